@@ -15,7 +15,52 @@ import (
 // N client goroutines under the seeded scheduler, one shared simulated pool,
 // the Go race detector with only true happens-before edges.
 
+// c18Focus carries, from the plain pass to the race pass, the calls during
+// which the package-level grammar value changed: "batch/parser name" -> calls.
+// A change of that value is not a violation in itself (a correctly
+// synchronised lazy cache would do the same); the race pass therefore runs
+// those very calls from several clients at once, where an unsynchronised
+// write to the shared grammar is a data race the detector reports.
+var c18Focus = map[string][]parsersim.Call{}
+
 func c18Prop(race bool) *pProp {
+	pp := c18PropBase(race)
+	if !race {
+		pp.collect = func(batch int, gp *genParser, req *parsersim.Request, resp *parsersim.Response) {
+			key := fmt.Sprintf("%d/%s", batch, gp.Name)
+			if resp.Stats["grammar_value_changed_during_run"] == 0 || len(c18Focus[key]) >= 6 {
+				return
+			}
+			for _, cl := range req.Clients {
+				for _, c := range cl {
+					if len(c18Focus[key]) < 6 {
+						c18Focus[key] = append(c18Focus[key], c)
+					}
+				}
+			}
+		}
+		return pp
+	}
+	inner := pp.mkReqs
+	pp.mkReqs = func(r *rng, gp *genParser, p pParams) []*parsersim.Request {
+		reqs := inner(r, gp, p)
+		calls := c18Focus[fmt.Sprintf("%d/%s", p.batch, gp.Name)]
+		for k := 0; k < len(calls) && k < 6; k++ {
+			// three clients make the same call: whatever it writes into the shared
+			// grammar, they write it concurrently
+			var clients [][]parsersim.Call
+			for c := 0; c < 3; c++ {
+				clients = append(clients, []parsersim.Call{calls[k], calls[(k+1)%len(calls)]})
+			}
+			reqs = append(reqs, &parsersim.Request{ID: fmt.Sprintf("c18-%s-focus%d", gp.Name, k), Kind: "c18", Parser: gp.Name,
+				Clients: clients, Sched: simrt.SchedConfig{Strategy: simrt.StratRandom, SwitchOneIn: []int{2, 5}[k%2]}, Seed: r.u64(), StepCap: 60000})
+		}
+		return reqs
+	}
+	return pp
+}
+
+func c18PropBase(race bool) *pProp {
 	return &pProp{
 		id:     "C18",
 		level:  "exploration",
@@ -26,12 +71,13 @@ func c18Prop(race bool) *pProp {
 		tier: func(tier string) pParams {
 			if tier == "thorough" {
 				if race {
-					return pParams{batches: 4, grammars: 150, extra: 120}
+					return pParams{batches: 6, grammars: 300, extra: 60}
 				}
 				return pParams{batches: 6, grammars: 300, extra: 300}
 			}
 			if race {
-				return pParams{grammars: 32, extra: 30}
+				// the same grammars as the plain pass (same seed stream), fewer schedules
+				return pParams{grammars: 48, extra: 20}
 			}
 			return pParams{grammars: 48, extra: 100}
 		},
